@@ -24,6 +24,7 @@ EXTRA = [
     ("two-continuous-states", {"p_w": 1.0, "p_z": 1.0, "sizes": {"w": 5}, "max_cells": 2500}),
     ("two-continuous-states, second longer", {"p_w": 1.0, "p_z": 1.0, "sizes": {"w": 3, "z": 5}, "max_cells": 2500}),
     ("log-grid", {"p_log": 1.0, "p_w": 1.0, "p_z": 0.0}),
+    ("log-grid that does not start at 1, several periods", {"p_log": 1.0, "p_w": 1.0, "p_z": 0.0, "T": [2, 3], "log_first": [2, 0.5]}),
     ("several filters", {"p_r": 1.0, "p_choice_filter": 1.0, "p_state_filter": 0.5, "p_q": 0.4}),
     ("near-ties between restricted choices", {"p_r": 1.0, "p_near_tie": 1.0, "p_b": 0.5, "max_cells": 800, "all_admitted": True}),
     ("near-ties between restricted choices, one period", {"p_r": 1.0, "p_near_tie": 1.0, "p_b": 0.5, "T": [1], "sizes": {"a": 3}}),
